@@ -5,6 +5,7 @@ import NurbsVerif.Lemmas.AssembleHull
 import NurbsVerif.Lemmas.AssembleEnds
 import NurbsVerif.Lemmas.AssembleWF
 import NurbsVerif.Lemmas.LengthSamples
+import NurbsVerif.Lemmas.LengthEuclid
 
 /-!
 # C18  Shapes stay inside the hull of their control points
@@ -463,7 +464,8 @@ example : curvePoint 2 (fnOf ([0,0,0,1/2,1,1,1] : List ℚ)) [[0,0],[1,2],[2,0],
 `dist pts[i] pts[i+1]` starting from `0`; `curveLength` applies it to the sampled points `curveGrid`).
 The distance is `distN N a b = N (b - a)` for an ABSTRACT seminorm `N` on coordinate lists of length
 `d` (`IsSeminorm d N`: non-negative, sub-additive, positively homogeneous).  The Euclidean norm over
-`ℝ` – what `linalg.point_distance` computes in floating point – is an instance; `l1norm` is an
+`ℝ` – what `linalg.point_distance` computes in floating point – is an instance (`euclid_is_seminorm`, with
+the ℝ versions `length_curve_ge_chord_euclid`, `length_curve_le_control_polygon_euclid` at the end); `l1norm` is an
 instance over every ordered field (used for the concrete examples over `ℚ`); no square root is taken
 in `K`. -/
 
@@ -601,5 +603,70 @@ example : curveLength (distN l1norm) false 2 (fnOf ([0,0,0,1/2,1,1,1] : List ℚ
 example : ([0, 1/3, 1/2, 9/10] : List ℚ).Pairwise (· < ·) ∧
     ∀ u ∈ ([0, 1/3, 1/2, 9/10] : List ℚ), fnOf ([0,0,0,1/2,1,1,1] : List ℚ) 2 ≤ u ∧ u ≤ fnOf ([0,0,0,1/2,1,1,1] : List ℚ) 4 := by
   decide +kernel
+
+/-! ### the Euclidean norm over ℝ – the norm `operations.length_curve` measures with – is an instance -/
+
+/-- **The Euclidean norm `√(Σ_{i<d} vᵢ²)` over ℝ is a seminorm in the sense of `IsSeminorm`** (every dimension;
+    triangle inequality from Mathlib's Cauchy–Schwarz inequality), and the distance it induces on points of `d`
+    coordinates is `linalg.point_distance`: `√(Σ (bᵢ - aᵢ)²)`; its radicand is `Lin.normSq` of C16. -/
+theorem euclid_is_seminorm (d : ℕ) :
+    IsSeminorm d (euclidNorm d) ∧
+    (∀ a b : List ℝ, a.length = d → b.length = d →
+      distN (euclidNorm d) a b = Real.sqrt (∑ i : Fin d, (b.getD i 0 - a.getD i 0) ^ 2)) ∧
+    ∀ v : List ℝ, v.length = d → euclidNorm d v = Real.sqrt (Lin.normSq v) :=
+  ⟨euclid_isSeminorm d, distN_euclid d, euclidNorm_eq_sqrt_normSq d⟩
+
+/-- **Euclidean length, lower bound** (`length_curve_ge_chord` at `K := ℝ`, `N :=` Euclidean norm): the
+    approximate length of a clamped non-rational curve is at least the Euclidean distance of its end points. -/
+theorem length_curve_ge_chord_euclid (p d : ℕ) (Ul : List ℝ) (P : List (List ℝ)) (hC : CurveWF p d Ul P)
+    (hcl : ClampedOk p (fnOf Ul) P.length) (num : ℕ) (hnum : 2 ≤ num) (tol : ℝ)
+    (htol : tol < |fnOf Ul p - fnOf Ul P.length|) :
+    distN (euclidNorm d) (ptsGet P 0) (ptsGet P (P.length - 1))
+      ≤ curveLength (distN (euclidNorm d)) false p (fnOf Ul) P (linspace (fnOf Ul p) (fnOf Ul P.length) num tol) :=
+  length_curve_ge_chord (euclid_isSeminorm d) p Ul P hC hcl num hnum tol htol
+
+/-- **Euclidean length, upper bound** (`length_curve_le_control_polygon` at `K := ℝ`, Euclidean norm): the
+    approximate length is at most the Euclidean length of the control polygon, for every sample size. -/
+theorem length_curve_le_control_polygon_euclid (p : ℕ) (hp : 1 ≤ p) (d : ℕ) (Ul : List ℝ) (P : List (List ℝ))
+    (hC : CurveWF p d Ul P) (hend : ∀ i, P.length ≤ i → i < P.length + p → fnOf Ul i = fnOf Ul P.length)
+    (num : ℕ) (tol : ℝ) :
+    curveLength (distN (euclidNorm d)) false p (fnOf Ul) P (linspace (fnOf Ul p) (fnOf Ul P.length) num tol)
+      ≤ polylineLength (distN (euclidNorm d)) P :=
+  length_curve_le_control_polygon (euclid_isSeminorm d) p hp Ul P hC hend num tol
+
+/-- a concrete Euclidean distance: from `(0,0)` to `(3,4)` it is `5` (so the norm is not the ℓ¹ norm, `7`) -/
+example : distN (euclidNorm 2) [0, 0] [3, 4] = 5 := by
+  rw [distN_euclid 2 _ _ rfl rfl, Fin.sum_univ_two]
+  have : ((([3, 4] : List ℝ).getD ((0 : Fin 2) : ℕ) 0 - ([0, 0] : List ℝ).getD ((0 : Fin 2) : ℕ) 0) ^ 2
+      + (([3, 4] : List ℝ).getD ((1 : Fin 2) : ℕ) 0 - ([0, 0] : List ℝ).getD ((1 : Fin 2) : ℕ) 0) ^ 2) = 5 ^ 2 := by
+    simp; norm_num
+  rw [this, Real.sqrt_sq (by norm_num)]
+
+/-- the hypotheses over ℝ are met by the quadratic `(0,0), (0,4), (3,4)` with knots `0,0,0,1,1,1`: its sampled
+    Euclidean length lies between the chord `5` and the polygon length `7` -/
+example (num : ℕ) (hnum : 2 ≤ num) :
+    distN (euclidNorm 2) (ptsGet ([[0,0],[0,4],[3,4]] : List (List ℝ)) 0) (ptsGet ([[0,0],[0,4],[3,4]] : List (List ℝ)) 2)
+      ≤ curveLength (distN (euclidNorm 2)) false 2 (fnOf ([0,0,0,1,1,1] : List ℝ)) [[0,0],[0,4],[3,4]]
+          (linspace (fnOf ([0,0,0,1,1,1] : List ℝ) 2) (fnOf ([0,0,0,1,1,1] : List ℝ) 3) num (1/10000000)) ∧
+    curveLength (distN (euclidNorm 2)) false 2 (fnOf ([0,0,0,1,1,1] : List ℝ)) [[0,0],[0,4],[3,4]]
+          (linspace (fnOf ([0,0,0,1,1,1] : List ℝ) 2) (fnOf ([0,0,0,1,1,1] : List ℝ) 3) num (1/10000000))
+      ≤ polylineLength (distN (euclidNorm 2)) ([[0,0],[0,4],[3,4]] : List (List ℝ)) := by
+  have hC : CurveWF 2 2 ([0,0,0,1,1,1] : List ℝ) [[0,0],[0,4],[3,4]] :=
+    { mono := mono_of_pairwise _ (by simp), len := by simp, pn := by simp, last := by simp [fnOf],
+      net := by intro pt hpt; simp at hpt; rcases hpt with h | h | h <;> simp [h] }
+  refine ⟨length_curve_ge_chord_euclid 2 2 _ _ hC ?_ num hnum _ (by simp [fnOf]; norm_num),
+    length_curve_le_control_polygon_euclid 2 (by omega) 2 _ _ hC ?_ num _⟩
+  · refine ⟨?_, ?_, by simp [fnOf]⟩
+    · intro i h1 h2
+      obtain rfl | rfl : i = 1 ∨ i = 2 := by omega
+      all_goals simp [fnOf]
+    · intro i h1 h2
+      simp only [List.length_cons, List.length_nil] at h1 h2
+      obtain rfl | rfl : i = 3 ∨ i = 4 := by omega
+      all_goals simp [fnOf]
+  · intro i h1 h2
+    simp only [List.length_cons, List.length_nil] at h1 h2
+    obtain rfl | rfl : i = 3 ∨ i = 4 := by omega
+    all_goals simp [fnOf]
 
 end C18
